@@ -54,6 +54,11 @@ CHECKS = {
    text="For generated programs that assemble, the source map's address ranges must equal the reference walk's emission sites, each entry's span must lie inside the renderer-recorded source range of the statement/value that emitted it (or an enclosing macro invocation in listing mode), address lookup must return that entry, and the `.lst` text produced by to_listing, parsed back, must show every source line once and in order, rows whose bytes are the image bytes at the row's address, per-line bytes in emission order and every emitted byte exactly once.",
    note="In-process (CodegenContext::source_map, io::to_listing); the file naming of `mos build` listings is covered by C10. Lookup and row-address checks are skipped for programs whose segments overlap in target addresses (the source map carries no segment identity).",
    ref="§5 C11"),
+ "C04": dict(
+   technique="proptest fault injection: valid generated program + one generated fault (class x position); located-diagnostic predicate in-process and on `mos build` (exit status, stdout, target directory snapshot)",
+   text="One fault of 11 classes is injected into a valid generated program at a generated position (semantic faults at live positions only: taken branches, invoked macros, loops with count >= 1; syntax faults anywhere). In-process runs (volume) demand a diagnostic at the injector's file/line and, for semantic classes, column; CLI runs of `mos build -e Short` with listing and symbols enabled and a target directory pre-populated with sentinel files demand exit status 1, the located diagnostic on stdout and a byte- and mtime-identical target directory.",
+   note="Single-file projects (faults inside imported files are not generated yet). The diagnostic's wording is not judged, only its location; columns are accepted anywhere inside the offending statement where the property does not single out a token. The base program is verified to assemble before injection.",
+   ref="§5 C04"),
 }
 
 NOT_YET = {
